@@ -217,15 +217,19 @@ impl NoGoodStore {
                 DuplicateElemination::None => true,
                 DuplicateElemination::Equiv => !self.store[idx].contains(&nogood),
                 DuplicateElemination::Subsume => {
-                    self.store
-                        .iter_mut()
-                        .enumerate()
-                        .for_each(|(cur_idx, ng_vec)| {
-                            if idx >= cur_idx {
-                                ng_vec.retain(|ng| !ng.is_violating(&nogood));
-                            }
-                        });
-                    true
+                    // the new nogood is redundant if a stored one (of at most the same size) is a subset of it
+                    if self.store[..=idx]
+                        .iter()
+                        .any(|ng_vec| ng_vec.iter().any(|ng| ng.is_violating(&nogood)))
+                    {
+                        false
+                    } else {
+                        // stored nogoods which are supersets of the new one are subsumed by it
+                        self.store[idx..]
+                            .iter_mut()
+                            .for_each(|ng_vec| ng_vec.retain(|ng| !nogood.is_violating(ng)));
+                        true
+                    }
                 }
             } {
                 self.store[idx].push(nogood);
